@@ -316,8 +316,21 @@ def facts_of(R):
     F['syncfuture_field_order'] = fields == ['state', 'scheduler_future', 'task_finished']
     fs = find_fn(ds, 'future_sync', 'fact:future_sync', impl='Scheduler')
     F['future_sync_slot_job'] = bool(re.search(r'queue_ready_send\.send\(\(\)\)\.ok\(\)\s*;\s*done_recv\.await\.ok\(\)\s*;\s*send\.signal\(\(\)\)\s*;', fs)) and bool(re.search(r'self\.schedule_job_desync\(queue,\s*Box::new\(signal_job\)\)\s*;\s*SyncFuture::new', fs))
+    # dropping a SchedulerFuture does nothing to the queue (the model has no step for it): the Drop impl has an empty body
+    sfd = re.search(r'impl<T:\s*Send>\s+Drop\s+for\s+SchedulerFuture<T>\s*\{\s*fn\s+drop\(&mut\s+self\)\s*\{(.*?)\}\s*\}', sf, flags=re.S)
+    F['schedfuture_drop_inert'] = bool(sfd and sfd.group(1).strip() == '') and count(r'Drop\s+for\s+SchedulerFuture<', sf) == 1
+    # drain_queue, job returned Pending: the queue state is written (WaitingForWake / WaitingForPoll) BEFORE the deferred wake-up is
+    # released with wake_with - a wake-up that arrived during the poll then finds the parked state, not Running
+    F['drain_queue_parks_before_wake_with'] = bool(re.search(r'\.state\s*=\s*QueueState::WaitingForWake\s*;(?:(?!\.state\s*=).)*?waker\.wake_with\(queue_waker\)\s*;(?:(?!wake_with).)*?\.state\s*=\s*QueueState::WaitingForPoll\(self\.id\)\s*;(?:(?!\.state\s*=).)*?waker\.wake_with\(wake_both\)\s*;', dqf, flags=re.S)) and count(r'wake_with\(', dqf) == 2
+    # WakeThread: the thread is unparked whatever state the queue was found in (a stale waker of another thread must not swallow the wake-up)
+    wtf = find_fn(strip_comments(open(S + 'wake_thread.rs').read()), 'wake_by_ref', 'fact:wake_thread')
+    F['wake_thread_unparks_always'] = bool(re.search(r'match\s+queue_core\.state\s*\{[^{}]*\}\s*\}\s*thread\.unpark\(\)\s*;\s*\}\s*$', wtf)) and count(r'unpark\(\)', wtf) == 1 and count(r'\breturn\b', wtf) == 0
     # Desync::drop = sync(free)
     dd = re.search(r'impl<T:\s*Send>\s+Drop\s+for\s+Desync<T>\s*\{(.*?)\n\}', dsy, flags=re.S)
+    # ... and nothing else: the whole body, normalised, is the two-branch final synchronous job (no early return, no other free)
+    ddn = re.sub(r'\s+', ' ', re.sub(r'#\[cfg\([^\]]*\)\]\s*use\s+[^;]*;', '', dd.group(1) if dd else '')).strip()
+    F['drop_only_syncs'] = ddn == ('fn drop(&mut self) { let data = DataRef::<T>(self.data); if thread::panicking() { scheduler().sync_no_panic(&self.queue, move || { '
+        'let data = data.0; mem::drop(unsafe { Box::from_raw(data) }); }); } else { sync(&self.queue, move || { let data = data.0; mem::drop(unsafe { Box::from_raw(data) }); }); } }') and count(r'Box::from_raw', dsy) == 2
     F['drop_is_sync_free'] = bool(dd and re.search(r'else\s*\{\s*sync\(&self\.queue,\s*move\s*\|\|\s*\{\s*let\s+data\s*=\s*data\.0\s*;\s*mem::drop\(unsafe\s*\{\s*Box::from_raw\(data\)\s*\}\)\s*;', dd.group(1)))
     # pipes
     m = re.search(r'const\s+PIPE_BACKPRESSURE_COUNT\s*:\s*usize\s*=\s*(\d+)\s*;', pipe)
